@@ -764,7 +764,14 @@ func (s *IStore) DeletePARSession(ctx context.Context, uri string) error {
 		s.leave(c, e)
 		return s.w(e)
 	}
-	err := s.exec(c, func(m *storage.MemoryStore) error { return m.DeletePARSession(ctx, uri) })
+	err := s.exec(c, func(m *storage.MemoryStore) error {
+		if s.Mode.RowCount {
+			if _, ok := m.PARSessions[uri]; !ok {
+				return fosite.ErrNotFound // DELETE affected zero rows
+			}
+		}
+		return m.DeletePARSession(ctx, uri)
+	})
 	s.leave(c, err)
 	return s.w(err)
 }
